@@ -37,7 +37,9 @@ def check_C11(rep, prog, tier):
 
 WALK_SHAPES_QUICK = [(['F', 'F', 'F'], [1, 2]), (['F', 'S', ('D', [])], [2, 1]),
                      ([('D', ['F', 'F']), 'F', ('D', ['F'])], [1, 2]),
-                     ([('D', [('D', ['F']), 'F']), ('D', ['F']), 'F'], [1, 1, 2])]
+                     ([('D', [('D', ['F']), 'F']), ('D', ['F']), 'F'], [1, 1, 2]),
+                     # a directory next to a sibling whose name extends it ("conf", "conf.d"), the shorter one holding a subdirectory
+                     ([('D', [('D', ['F'])]), ('D', ['F'])], [1, 1, 1, 2, 1]), ([('D', ['F']), ('D', [('D', ['F'])])], [2, 1, 1, 1, 1])]
 WALK_SHAPES_THOROUGH = WALK_SHAPES_QUICK + [
     ([('D', ['F', 'F']), 'F', ('D', ['F'])], [2, 1]), ([('D', ['F', ('D', ['F', 'F'])]), ('D', [('D', ['F'])]), 'F', 'F'], [1, 2]),
     ([('D', [('D', [('D', ['F'])]), 'F']), ('D', ['F', 'F']), 'S'], [1, 1, 2]), (['F', 'F', 'F', 'F'], [2])]
@@ -185,6 +187,8 @@ def check_C08(rep, prog, tier):
         rep.add_obligation(name, 'violated', st, tot['bad'][:3])
     else:
         rep.add_obligation(name, 'holds', st)
+    # paths of mixed depth around the resume point, and the subtree filter (the same obligation C12 runs)
+    subtree_listing(rep, prog, tier, tier_deadline(tier, 240, 1200))
 
 
 def check_C05(rep, prog, tier):
@@ -263,6 +267,8 @@ def check_C03(rep, prog, tier):
         [('F', [1]), ('FF', [1, 2]), ('FF', [1, 1]), ('DS', [0, 0]), ('FDF', [1, 0, 2]), ('FFF', [1, 2, 3])]
     cases = _bcases(shapes, ['crash', 'empty_crash'])
     cases += _bcases([('FF', [1, 2])] if tier == 'quick' else [('FF', [1, 2]), ('FS', [1, 0])], ['crash'], prior='same')
+    # a history with two interruptions: an earlier run died before writing its band head, the run under test dies anywhere
+    cases += _bcases([('F', [1])], ['crash'], prior='built', prior_kinds='FF', prior_classes=[2, 3], headless_above=True)
     rep.bounds = {'cases': [BC.case_name(c) for c in cases],
                   'crash_points': 'before every storage step k of the backup, and inside every write (empty file left); k solver-chosen',
                   'follow_up': 'after each crash: list every version with the real Stitch, run the backup again, check it'}
@@ -301,9 +307,11 @@ def check_C13(rep, prog, tier):
     for opts in ((64, 16, 1000), (64, 16, 3), (4, 16, 1000)):
         cases.append(dict(kinds='DDDDFFF', classes=[0, 0, 0, 0, 1, 2, 3], mode='none', paths=nested, sizes=[0, 0, 0, 0, 5, 6, 7],
                           fixed_opts=opts))
+    # "everything written": also what a run writes around one failing storage step (duplicate content after a failed block write)
+    cases += _bcases([('FF', [1, 1])], ['fault'])
     rep.bounds = {'cases': [BC.case_name(c) for c in cases]}
     rep.assumptions += BC.COMMON_ASSUMPTIONS + ['the literal JSON and Snappy byte encodings are modelled, not decoded']
-    BC.run_cases(rep, prog, cases, dl, 'C13', 'everything a fault-free backup writes conforms to doc/format.md (independent reading of the store)',
+    BC.run_cases(rep, prog, cases, dl, 'C13', 'everything a backup writes (fault-free, and around one failing storage step) conforms to doc/format.md (independent reading of the store)',
                  require=[r'event-free run', r'band with several hunks', r'block shared by several files', r'file split over several blocks', r'entry refers to a block stored earlier'])
     naming_functions(rep, prog)
 
@@ -367,10 +375,93 @@ def check_C07(rep, prog, tier):
     cases += _bcases([('F', [1])], ['none', 'crash'], prior='built', prior_kinds='FF', prior_classes=[2, 3])
     cases += _bcases([('F', [1])], ['fault'], prior='same')
     rep.bounds = {'cases': [BC.case_name(c) for c in cases]}
-    rep.assumptions += BC.COMMON_ASSUMPTIONS + ['two racing backups are not explored here']
+    rep.assumptions += BC.COMMON_ASSUMPTIONS + ['storage operations are atomic (also for the racing-backups obligation)']
     BC.run_cases(rep, prog, cases, dl, 'C07', 'a backup (complete, interrupted, faulted or resumed) only adds files; the new band id is above every existing one',
                  require=[r'event-free run', r'^stop:write:', r'entry refers to a block stored earlier'])
     band_ids(rep, prog)
+    local_write(rep, prog, dl)
+    racing_backups(rep, prog, tier, dl)
+
+
+def racing_backups(rep, prog, tier, dl):
+    """C07: two backups of differing sources interleaved at storage-operation granularity (context-bounded)."""
+    from .harness import race as RC
+    from .interp import parallel_explore
+    bound = 2 if tier == 'quick' else 3
+    rep.bounds['racing_backups'] = {'actors': 'two real backup() runs of differing trees (both keep /a of the existing version, each adds one file) on an archive with one complete version',
+                                    'preemption_bound': bound, 'granularity': 'control changes hands only immediately before a storage operation', 'who_starts': 'solver-chosen'}
+    res, st, fns, mods, inc = parallel_explore(prog, RC.make_race2(prog, bound), deadline=dl, max_paths=400000, step_budget=900000)
+    rep.functions |= fns
+    rep.models |= mods
+    rep.samples += res.get('samples', [])[:1]
+    stats = _stats(st)
+    name = 'two racing backups (<= %d preemptions): nothing that existed changes, every complete version is exactly one of the two sources, a run that reports clean success has its version' % bound
+    for b in res['bad']:
+        if b['kind'] == 'panic':
+            rep.violation('race2:panic', 'racing backups panic: %s' % b['msg'], '', False)
+            continue
+        m = b.get('model') or {}
+        s0, sx, sy = m.get('size_0', 10), m.get('size_x', 11), m.get('size_y', 12)
+        f = lambda p, n, c, t: {'path': p, 'kind': 'File', 'content_len': n, 'content_class': c, 'mtime': [t, 0], 'mode': 0o644}
+        sc = {'kind': 'race', 'first_tree': [f('/a', s0, 1, 10)], 'second_tree': [f('/a', s0, 1, 10), f('/x', sx, 5, 11)],
+              'third_tree': [f('/a', s0, 1, 10), f('/y', sy, 6, 12)], 'schedule': [a for a, v, p in b['schedule']],
+              'mirsym': {'key': b['key'], 'results': b['results'], 'problems': b['problems']}}
+        out, path = runner.replay(sc, 'C07_race2')
+        vers = [v for v in (out.get('versions') or []) if v.get('band') != 'b0000']
+        reproduced = bool(out.get('rewritten')) or any(v.get('restore_errors') or not v.get('restore_ok') or (v.get('differs_from_second_tree') and v.get('differs_from_third_tree')) for v in vers) \
+            or (out.get('backup') == 'Ok errors=0' and not any(not v.get('differs_from_second_tree') for v in vers)) \
+            or (out.get('gc') == 'Ok errors=0' and not any(not v.get('differs_from_third_tree') for v in vers))
+        rep.violation(b['key'], '%s (results %s)' % ('; '.join(b['problems'][:2]), b['results']), path, reproduced)
+    if inc:
+        rep.inconclusive += ['racing backups: ' + x for x in inc[:4]]
+        rep.add_obligation(name, 'inconclusive', stats, inc[:3])
+    elif res['bad']:
+        rep.add_obligation(name, 'violated', stats, [{k: v for k, v in b.items() if k not in ('model', 'schedule')} for b in res['bad'][:3]])
+    else:
+        rep.add_obligation(name, 'holds', stats)
+
+
+def local_write(rep, prog, dl):
+    """C07 at the storage layer: transport::local::Protocol::write from MIR over a file model."""
+    from .harness import localw as LW
+    from .interp import parallel_explore
+    res, st, fns, mods, inc = parallel_explore(prog, LW.make_local_write(prog), deadline=dl, max_paths=10000, step_budget=400000, procs=4)
+    rep.functions |= fns
+    rep.models |= mods
+    rep.samples += res.get('samples', [])[:2]
+    rep.bounds['local_write'] = {'target before the write': LW.PRE, 'mode': ['CreateNew', 'Overwrite'], 'physical write': ['succeeds', 'may fail half-way (solver-chosen)']}
+    rep.assumptions += ['tokio::fs / std::fs calls of the local transport are served by a file model with the documented semantics of fs::write, OpenOptions::open, remove_file, metadata; spawn_blocking runs its closure at once']
+    name = 'local transport write: CreateNew never replaces an existing non-empty file (fails AlreadyExists, file untouched); a successful write leaves exactly the new bytes; no partial file survives a failed write'
+    stats = _stats(st)
+    seen = set()
+    for b in sorted(res['bad'], key=lambda b: bool((b.get('case') or {}).get('flaky'))):
+        if b['kind'] == 'panic':
+            key, what, sc = 'local-write:panic', 'local Protocol::write panics: %s' % b['msg'], None
+        else:
+            c = b['case']
+            key = 'local-write:%s:%s:%s' % ('create-new' if c['create_new'] else 'overwrite', c['pre'], b['problems'][0].split(':')[0].replace(' ', '-')[:40])
+            what = '%s (target %s, mode %s%s)' % (b['problems'][0], c['pre'], 'CreateNew' if c['create_new'] else 'Overwrite', ', physical write failing' if c['flaky'] and not c['ok'] else '')
+            sc = {'kind': 'local_write', 'pre': c['pre'], 'create_new': c['create_new'], 'mirsym': c}
+        if key in seen:
+            continue
+        seen.add(key)
+        if sc is None:
+            rep.violation(key, what, '', False)
+            continue
+        out, path = runner.replay(sc, 'C07_localwrite')
+        c = b['case']
+        if c['create_new'] and c['pre'] == 'nonempty':
+            reproduced = bool(out.get('ok')) or out.get('content') != 'old' or (out.get('kind') or '') != 'AlreadyExists'
+        else:
+            reproduced = (bool(out.get('ok')) and out.get('content') != 'new') or (not out.get('ok') and not c['flaky'] and not (c['create_new'] and c['pre'] == 'empty'))
+        rep.violation(key, what, path, reproduced)
+    if inc:
+        rep.inconclusive += ['local write: ' + x for x in inc[:4]]
+        rep.add_obligation(name, 'inconclusive', stats, inc[:3])
+    elif res['bad']:
+        rep.add_obligation(name, 'violated', stats, res['bad'][:4])
+    else:
+        rep.add_obligation(name, 'holds', stats)
 
 
 def band_ids(rep, prog):
@@ -536,13 +627,13 @@ def diff_scenario(b):
         c = p[1]
         sk, lk = b['kinds'][p]
         if pr in 'SB':
-            e = {'path': p, 'kind': sk, 'size': max(1, m.get('s%ssize' % c, 1)) if sk == 'File' else 0,
+            e = {'path': p, 'kind': sk, 'size': max(0, m.get('s%ssize' % c, 1)) if sk == 'File' else 0,
                  'mtime': [m.get('s%ssec' % c, 0), m.get('s%sns' % c, 0)], 'mode': m.get('s%smode' % c, 0),
                  'user': 'root' if m.get('s%suser' % c, 1) else None, 'group': 'root', 'target': 't%d' % m.get('s%stgt' % c, 1)}
             stored.append(e)
         if pr in 'LB':
             mode = m.get('l%smode' % c, 0o644)
-            e = {'path': p, 'kind': lk, 'content_len': max(1, m.get('l%ssize' % c, 1)) if lk == 'File' else 0, 'content_class': ord(c),
+            e = {'path': p, 'kind': lk, 'content_len': max(0, m.get('l%ssize' % c, 1)) if lk == 'File' else 0, 'content_class': ord(c),
                  'mtime': [m.get('l%ssec' % c, 0), m.get('l%sns' % c, 0)], 'mode': mode, 'target': 't%d' % m.get('l%stgt' % c, 1)}
             live.append(e)
     # the live root must look unchanged: same mtime/mode as stored (set last by make_tree)
@@ -786,7 +877,7 @@ def _history_native(variant):
                 {'path': '/a', 'kind': 'File', 'size': sa, 'class': 1, 'mode': 0o644, 'mtime': [2, 0]},
                 {'path': '/m', 'kind': 'File', 'blocks': [sm, sn], 'size': sm + sn, 'class': 5, 'mode': 0o644, 'mtime': [4, 0]}]}]
         elif variant == 'single':
-            bands = [{'band': 0, 'closed': True, 'entries': [
+            bands = [{'band': 0, 'closed': bool(newest_closed), 'entries': [
                 {'path': '/', 'kind': 'Dir', 'mode': 0o755, 'mtime': [1, 0], 'hunk': 0},
                 {'path': '/a', 'kind': 'File', 'size': 7, 'class': 1, 'mode': 0o644, 'mtime': [2, 0], 'hunk': 0},
                 {'path': '/a2', 'kind': 'File', 'size': 7, 'class': 1, 'mode': 0o644, 'mtime': [2, 0], 'hunk': 0},
